@@ -550,6 +550,14 @@ func runCheck(c *CheckDef, tier string, workers int, only, solver string, seed i
 				reproduced = got == "panic"
 			case want == "budget" || want == "alloc" || want == "alloc-total":
 				reproduced = got == "assert:"+want || got == "panic"
+				if want == "budget" && got == "end" && nr.ElapsedMs >= 250 {
+					// the engine exhausted its step budget on inputs of a few dozen
+					// bytes; the native run of the same inputs ends normally but takes
+					// >= 250 ms (microseconds are normal): the work is real, it just
+					// makes no reader calls that the native counters could see
+					v.Msg = fmt.Sprintf("step budget exhausted in the engine; the native run took %d ms", nr.ElapsedMs)
+					reproduced = true
+				}
 			default:
 				reproduced = got == "assert:"+want
 				if !reproduced && strings.HasPrefix(got, "assert:") && got != "assert:reachable" && !hc.ExpectViolation && v.Known == "" {
@@ -711,7 +719,11 @@ func cmdReplay(args []string) int {
 	fmt.Printf("harness=%s params=%v draws=%v\nexpected: %s\nnative outcome: %s\n%s\nobservations: %v\n", rf.Harness, rf.Params, rf.Draws, rf.Label, nres[0].Outcome, firstLine(nres[0].Msg), nres[0].Obs)
 	want := rf.Label
 	got := nres[0].Outcome
-	if strings.HasPrefix(want, "panic:") && got == "panic" || got == "assert:"+want {
+	budgetLike := want == "budget" || want == "alloc" || want == "alloc-total"
+	if strings.HasPrefix(want, "panic:") && got == "panic" || got == "assert:"+want || budgetLike && got == "panic" || want == "budget" && got == "end" && nres[0].ElapsedMs >= 250 {
+		if want == "budget" && got == "end" {
+			fmt.Printf("native run took %d ms\n", nres[0].ElapsedMs)
+		}
 		fmt.Printf("VIOLATION property=%s replay=%s\n", rf.Property, args[0])
 		return 1
 	}
